@@ -16,10 +16,13 @@ Theorems: coq/Properties/C16.v.  Ties (correspondence by execution):
 Independent oracle (sweep): the abstract deck (which cards are flagged, the
 reference MCNP sense function of each card from mcnpref) against the written
 file only: every ALL_COMPLETE line designates a written SURF, that SURF has the
-locus of a flagged card of that kind (sign pattern of t4eval vs mcnpref on
-sample points), every flagged card bounding a written cell has such a line, no
-two lines designate the same SURF, the count is right, a flagged multi-facet
-macrobody stops the run.  The sweep also runs on decks outside the model
+locus of a flagged card of that kind, possibly moved by the TRCL / FILL
+translation of a cell naming it (sign pattern of t4eval vs mcnpref on sample
+points), every flagged card bounding a written cell has such a line for each
+locus it takes, no two lines designate the same SURF, a line naming an
+unflagged card needs a coincident flagged duplicate merged into it, the count
+is right, a flagged multi-facet macrobody stops the run, a ValueError is
+accepted only for coincident loci flagged differently.  The sweep also runs on decks outside the model
 (unions, complements, TRCL, TR on surfaces, one-sheet cones and macrobodies
 referenced by cells).'''
 import json
@@ -38,16 +41,17 @@ THEOREMS = ['C16_split_flags_star', 'C16_split_flags_plus',
             'C16_split_flags_none', 'C16_parsed_keys_distinct',
             'C16_bc_kind', 'C16_bc_one_per_flag', 'C16_bc_entries_exact',
             'C16_macrobody_flag_rejected', 'C16_macrobody_flag_stops_run',
-            'C16_bc_designates_present_same_locus',
             'C16_written_surfaces_exact',
-            'C16_bc_dedup_refuted', 'C16_bc_unused_refuted',
-            'C16_bc_stale_kind_quirk',
+            'C16_bc_designates_present_same_locus',
+            'C16_bc_entries_designate_written',
+            'C16_conflicting_flags_rejected', 'C16_number_items_distinct',
             'C16_run_t_plain', 'C16_expanded_table',
             'C16_bc_designates_present_same_locus_trcl',
-            'C16_trcl_copy_has_entry', 'C16_unflagged_deck_no_entries',
+            'C16_bc_entries_designate_written_trcl',
+            'C16_conflicting_flags_rejected_trcl', 'C16_trcl_copy_in_table',
+            'C16_unflagged_deck_no_entries',
             'C16_macrobody_flag_stops_run_t', 'C16_bc_entry_sound',
-            'C16_bc_never_designates_other_locus', 'C16_run_t_block_exact',
-            'C16_bc_trcl_original_refuted', 'C16_bc_trcl_copy_dedup_refuted']
+            'C16_bc_stale_kind_quirk']
 TRUSTED = [
     'hand-written model coq/C16/Model.v (modelled, tied by execution only)',
     'surfaces are abstract in the model: a descriptor class stands for '
@@ -68,10 +72,13 @@ TRUSTED = [
 ]
 ASSUMPTIONS = [
     'surface numbers are decimal digits (the card regex guarantees it)',
-    'guard of C16_bc_designates_present_same_locus: the flagged surface is '
-    'used by a volume that survives, and de-duplication is off or the surface '
-    'is the smallest-numbered of its duplicates; outside the guard the '
-    'statement is false (C16_bc_dedup_refuted, C16_bc_unused_refuted)',
+    'C16_bc_designates_present_same_locus has no guard beyond the property\'s '
+    'own "bounds a converted cell" (a cell that survives remove_empty_volumes); '
+    'the designated SURF is the representative of the flagged surface under '
+    'de-duplication (same descriptor, hence same locus)',
+    'coincident surfaces flagged * and + whose representative is written are '
+    'refused with a ValueError (C16_conflicting_flags_rejected); the oracle '
+    'accepts that refusal only when it finds such a pair numerically',
     'a macrobody with a single facet (SPH) is not rejected by the code: it is '
     'converted like the sphere S and its entry designates the right surface',
 ]
@@ -439,10 +446,10 @@ def oracle(deck, args, conv, t4, rng):
                 and 'iterable argument is empty' in conv.msg:
             return out          # sweep-only stream: every written volume was
             # removed as patently empty (duplicate planes with opposite senses)
-        if conv.exc == 'ValueError' and dedup and conflicting_kinds(last):
-            return out          # coincident surfaces flagged * and +: a
-            # repaired converter may refuse to merge them (the present code
-            # never does)
+        if conv.exc == 'ValueError' and dedup and 'conflicting' in conv.msg \
+                and conflicting_loci(deck, last):
+            return out          # coincident surfaces (cards or TRCL/FILL
+            # copies) flagged * and +: the converter refuses to merge them
         out.append((None, f'valid deck rejected: {conv.exc}: {conv.msg[:120]}'))
         return out
     if t4.errors:
@@ -486,52 +493,83 @@ def oracle(deck, args, conv, t4, rng):
             continue
         want = '*' if kind == 'REFLECTION' else '+'
         if sid not in t4.surfaces:
-            out.append((absent_class(deck, dedup, sid, last, users,
-                                     written_cells),
+            out.append((None,
                         f'ALL_COMPLETE {kind} {sid}: no SURF {sid} in the '
                         'written geometry'))
             continue
-        match = [k for k, s in flagged.items() if s['flag'] == want
-                 and (same_locus(deck, s, t4, sid, points)
-                      or any(same_locus(deck, s, t4, sid, points,
-                                        trcl_shift(c))
-                             for c in users.get(k, []) if trcl_shift(c)))]
+        # the loci a flagged surface takes: its own, and the one moved by the
+        # TRCL / FILL translation of each cell naming it (under
+        # de-duplication also of a skipped cell: its copy may be the
+        # duplicate that brings the flag to a written surface)
+        cand = [(k, None) for k, s in flagged.items() if s['flag'] == want]
+        for c in deck['cells']:
+            shift = trcl_shift(c)
+            if shift and (dedup or c['imp'] != 0):
+                cand += [(k, tuple(shift)) for k in cell_refs(deck, c)
+                         if k in flagged and flagged[k]['flag'] == want]
+        match = [(k, sh) for k, sh in dict.fromkeys(cand)
+                 if same_locus(deck, flagged[k], t4, sid, points, sh)]
         if not match:
             out.append((None, f'ALL_COMPLETE {kind} {sid}: SURF {sid} '
                         f'({t4.surfaces[sid][0]}) is not the locus of any '
                         f'surface flagged {want}'))
         card = last.get(sid)
         if match and card is not None and card['flag'] != want \
-                and not (dedup and any(k > sid for k in match)):
+                and not (dedup and any(k > sid or sh is not None
+                                       for k, sh in match)):
             # the designated number is a card of the deck that is not flagged
-            # this way; only a merge of a larger-numbered flagged duplicate
-            # into it (a repaired converter) could justify the entry
+            # this way; only the merge of a larger-numbered flagged duplicate
+            # (a card, or the copy made for a TRCL / FILL) justifies the entry
             out.append((None, f'ALL_COMPLETE {kind} {sid}: surface {sid} is '
                         f'not flagged {want} (only a coincident surface is)'))
         covered.update(match)
     for k, s in flagged.items():
-        live = [c for c in users.get(k, []) if c['id'] in written_cells]
-        if not live or k in covered:
-            continue
-        # a fix may designate the representative: accept any present surface
-        # of the right locus and kind (collected in `covered` above)
-        cls = None
-        if k in designated and k not in t4.surfaces:
-            continue            # already reported with its class above
-        out.append((cls, f'flagged surface {s["flag"]}{k} bounds written '
-                    f'cell {live[0]["id"]} but no entry of its kind '
-                    'designates a surface with its locus'))
+        for c in users.get(k, []):
+            if c['id'] not in written_cells:
+                continue
+            sh = trcl_shift(c)
+            if (k, tuple(sh) if sh else None) in covered:
+                continue
+            out.append((None, f'flagged surface {s["flag"]}{k} bounds written '
+                        f'cell {c["id"]} but no entry of its kind designates '
+                        'a surface with its locus'
+                        + (f' (moved by {sh})' if sh else '')))
+            break
     return out
 
 
-def conflicting_kinds(last):
-    '''Two coincident single surfaces (same descriptor class and TR) carrying
-    different proper flags.'''
-    kinds = {}
+def conflicting_loci(deck, last):
+    '''Two coincident loci carrying different proper flags: flagged single
+    cards and the copies made for converted cells with a TRCL / placed by a
+    FILL with a translation (compared numerically on sample points).'''
+    loci = []
     for s in last.values():
         if s['flag'] in ('*', '+') and s['mcnp'] == 1:
-            kinds.setdefault((s['cls'], s.get('tr')), set()).add(s['flag'])
-    return any(len(v) > 1 for v in kinds.values())
+            loci.append((s, None))
+    for c in deck['cells']:
+        shift = trcl_shift(c)
+        if shift is None or c['imp'] == 0:
+            continue
+        for k in cell_refs(deck, c):
+            s = last.get(k)
+            if s is not None and s['flag'] in ('*', '+') and s['mcnp'] == 1:
+                loci.append((s, shift))
+    points = sample_points(random.Random(4242), n=64)
+
+    def coincide(a, b):
+        same = opposite = True
+        for p in points:
+            va = mcnp_value(deck, a[0], p, a[1])
+            vb = mcnp_value(deck, b[0], p, b[1])
+            if abs(va) < 1e-6 or abs(vb) < 1e-6:
+                continue
+            if (va > 0) == (vb > 0):
+                opposite = False
+            else:
+                same = False
+        return same or opposite
+    return any(a[0]['flag'] != b[0]['flag'] and coincide(a, b)
+               for i, a in enumerate(loci) for b in loci[i + 1:])
 
 
 def trcl_shift(c):
@@ -558,60 +596,7 @@ def written_possible(deck, dedup):
     return False
 
 
-def trcl_copies(deck):
-    '''{id of the copy: (cell, number of the copied surface)} for the copies
-    made for the literals of cells with TRCL (fresh ids from the largest
-    surface number + 2, cells in card order, literals in order).'''
-    last = effective_surfs(deck)
-    key = max(last) + 1
-    out = {}
-    for c in deck['cells']:
-        if not c.get('trcl'):
-            continue
-        for x in c.get('lits') or c.get('order') or []:
-            key += 1
-            out[key] = (c, abs(x))
-    return out
-
-
-def absent_class(deck, dedup, sid, last, users, written_cells):
-    '''Narrow known-finding classes for an entry whose surface is not written.'''
-    s = last.get(sid)
-    if s is None:
-        copy = trcl_copies(deck).get(sid)
-        if copy is None:
-            if dedup and sid > max(last) and any(
-                    c.get('fillshift') and any(
-                        last[k]['flag'] and last[k]['mcnp'] == 1
-                        for k in cell_refs(deck, c) if k in last)
-                    for c in deck['cells']):
-                return 'bc_on_deduplicated_fill_copy'
-            return None
-        cell, orig = copy
-        o = last.get(orig)
-        if o is None or not o['flag'] or o['mcnp'] > 1:
-            return None
-        if cell['imp'] == 0 or cell['id'] not in written_cells:
-            return 'bc_on_unused_trcl_copy'
-        if dedup:
-            return 'bc_on_deduplicated_trcl_copy'
-        return None
-    if not s['flag'] or s['mcnp'] > 1:
-        return None
-    if dedup and any(o['id'] < sid and o['cls'] == s['cls']
-                     and o.get('tr') == s.get('tr') for o in last.values()):
-        return 'bc_on_deduplicated_surface'
-    live = [c for c in users.get(sid, []) if c['id'] in written_cells]
-    if not live:
-        return 'bc_on_unused_surface'
-    if all(c.get('trcl') for c in live):
-        return 'bc_on_trcl_original_surface'
-    if all(c.get('fillshift') for c in live):
-        return 'bc_on_fill_original_surface'
-    return None
-
-
-# ---- known-finding witnesses ----------------------------------------------
+# ---- decks that failed before the repair of writeT4BoundCond ---------------
 
 def witness(kind):
     px0 = lambda i, f: {'id': i, 'flag': f, 'text': 'px 0', 'mcnp': 1,
@@ -989,17 +974,14 @@ def run(res, tier, seed, proofs_ok):
                 'cells; non-trivial = at least one flagged surface; distinct '
                 'by deck text + options')
 
-    # ---- 1. known-finding witnesses ----
-    for cls, kind in WITNESSES:
-        deck = witness(kind)
-        conv, t4, _ = observe(deck, [])
-        probs = oracle(deck, [], conv, t4, random.Random(1))
-        res.count('witness:' + kind + (':fails' if probs else ':passes'))
-        report(res, deck, [], probs, 'witness ' + kind)
-        if probs and not any(c == cls for c, _ in probs):
-            res.violation('impl-violation',
-                          f'witness {kind} fails differently: {probs}',
-                          {'input': {'deck': render(deck)}}, found_input=True)
+    # ---- 1. the decks that failed before the repair (fix: 540bd39) ----
+    for kind in dict.fromkeys(k for _was, k in WITNESSES):
+        for args in ([], ['--skip-deduplication']):
+            deck = witness(kind)
+            conv, t4, _ = observe(deck, args)
+            probs = oracle(deck, args, conv, t4, random.Random(1))
+            res.count('regression:' + kind + (':fails' if probs else ':passes'))
+            report(res, deck, args, probs, 'regression deck ' + kind)
 
     # ---- 2. unit ties ----
     tie_split(res, rng, 120 if quick else 1200)
@@ -1031,18 +1013,17 @@ def run(res, tier, seed, proofs_ok):
                            coq_cards(deck), coq_cells(deck), term))
         meta.append((deck, args, conv, term))
         probs = oracle(deck, args, conv, t4, random.Random(seed + i))
-        if any(c is not None for c, _ in probs):
-            outside += 1
-        elif conv.ok and n_flag:
+        if conv.ok and n_flag:
             inside += 1
+            outside += bool(t4.boundary)
         for c, _ in probs:
             res.count('oracle:' + str(c))
         report(res, deck, args, probs, 'tie stream')
         if i in (0, n_valid):
             res.sample({'deck': text, 'args': args, 'observed': term})
-    res.extra['guard'] = {'flagged decks where every entry designates a '
-                          'written surface': inside,
-                          'decks outside the guard (known classes)': outside}
+    res.extra['guard'] = {'flagged decks converted (theorems apply, no '
+                          'guard)': inside,
+                          'of which with a non-empty block': outside}
     bad, errs = common.run_case_files('c16_run', HEADER, 'run_t_case',
                                       'check_run_t', cases)
     res.obligation(f'tie:run ({len(cases)} conversions: Model.run = SURF ids/'
